@@ -137,7 +137,10 @@ def run_witnesses(cfg, scratch, ledger):
         with open(os.path.join(dst, "tests", tname + ".rs"), "w") as f:
             f.write(text)
         try:
-            p = subprocess.run(["cargo", "test", "--offline", "--test", tname, "--", "--test-threads", "1"], cwd=dst,
+            tier = cfg.get("_tier", "quick")
+            env["VF_TIER"] = tier
+            cmd = ["cargo", "test", "--offline", "--test", tname] + (["--release"] if tier == "thorough" else []) + ["--", "--test-threads", "1"]
+            p = subprocess.run(cmd, cwd=dst,
                                capture_output=True, text=True, env=env, timeout=3600)
             out = p.stdout + p.stderr
         except subprocess.TimeoutExpired:
@@ -248,7 +251,7 @@ def main():
             unit_names += list(cfg.get("verus_thorough", []))
         with cf.ThreadPoolExecutor(max_workers=4) as exe:
             futs = {exe.submit(run_unit, u, REPO, VF, scratch): u for u in unit_names}
-            wfut = exe.submit(run_witnesses, cfg, scratch, ledger)
+            wfut = exe.submit(run_witnesses, dict(cfg, _tier=a.tier), scratch, ledger)
             kani_secs = run_kani_sets(pid, cfg, a.tier, scratch, ledger, notes, bounded, replay_info)
             wfut.result()
             for f in cf.as_completed(futs):
